@@ -203,11 +203,12 @@ Theorem same_bytes_entries (H : bytes -> bytes) (pay : N -> payload) (t : P.txb)
 Proof.
   intros b0 Hwf ND Hk Hcalc Hprior Hbuild fs.
   assert (Hv : script_view b1 = script_view b0).
-  { unfold calc_script_data_hash in Hcalc. destruct (calc_preimage b0 cm) as [[p|]| | |]; cbn [bind] in Hcalc; try discriminate;
-      injection Hcalc as <-; reflexivity. }
+  { apply (calc_result_view H calc_clears_own_hash _ _ _ Hcalc). }
   assert (Hks : known_stale_lang b0 = false).
   { unfold known_stale_lang. destruct stale_langs_counted; [exact Hk|apply stale_off]. }
-  rewrite (same_bytes H b0 cm b1 b1 tx Hwf Hks Hcalc Hprior Hv eq_refl Hbuild).
+  assert (Hprior' : has_script_items b0 = true \/ b_script_data_hash b0 = None \/ (calc_clears_own_hash = true /\ b_hash_calculated b0 = true)).
+  { destruct Hprior as [Hp|Hp]; [left; exact Hp|right; left; exact Hp]. }
+  rewrite (same_bytes H b0 cm b1 b1 tx Hwf Hks Hcalc Hprior' Hv eq_refl Hbuild).
   destruct (script_view_eq _ _ Hv) as [_ [_ [_ [Hl _]]]]. rewrite Hl.
   apply ledger_script_integrity_ext. intros l. symmetry. apply entries_langs_used; assumption.
 Qed.
